@@ -223,9 +223,14 @@ Definition pick (role : list ev -> bool) (sk : skeleton) : list ev :=
 Definition has_roles (sk : skeleton) : bool :=
   negb (is_nil (pick is_writer sk)) && negb (is_nil (pick is_pair_reader sk)) && negb (is_nil (pick is_pub_reader sk)).
 
-(** two reloads racing with one Sign and one Keys *)
+Definition explore_threads (ths : list thread) : bool :=
+  explore (fold_right (fun t n => length (th_rest t) + n) 0 ths) (init 0 ths).
+
+Definition is_reader (l : list ev) : bool := existsb (fun f => reads f l) all_fields.
+
+(** two reloads racing with one Sign and one Keys, and two reloads racing with every single
+    method (or function of another file) that reads a guarded field *)
 Definition explore_ok (sk : skeleton) : bool :=
-  let ths := [ mk_thread 1 (pick is_writer sk); mk_thread 2 (pick is_writer sk);
-               mk_thread 0 (pick is_pair_reader sk); mk_thread 0 (pick is_pub_reader sk) ] in
-  let c := init 0 ths in
-  explore (fold_right (fun t n => length (th_rest t) + n) 0 ths) c.
+  let w := pick is_writer sk in
+  explore_threads [ mk_thread 1 w; mk_thread 2 w; mk_thread 0 (pick is_pair_reader sk); mk_thread 0 (pick is_pub_reader sk) ]
+  && all_lazy (fun m => if is_reader (snd m) then explore_threads [ mk_thread 1 w; mk_thread 2 w; mk_thread 0 (snd m) ] else true) sk.
